@@ -62,6 +62,13 @@ MODES = {
     "only_matching": ["--no-heading", "-o", "-b"],
     "count_zero": ["-c", "--include-zero"],
     "vimgrep_after": ["--vimgrep", "-A2"],
+    # context options together with modes that do not print context, and --passthru (every file prints, matching or not)
+    "count_ctx": ["-c", "-C2"],
+    "files_ctx": ["-l", "-A1"],
+    "json_ctx": ["--json", "-C1"],
+    "countm_ctx": ["--count-matches", "-B1"],
+    "passthru": ["--no-heading", "-n", "--passthru"],
+    "passthru_heading": ["--heading", "--passthru"],
 }
 REQUIRED_MODES = ["heading", "noheading", "context", "count", "files_with_matches", "json", "files"]
 PATTERNS = {"many": "foo", "few": "needle", "none": "zzzq"}
@@ -222,7 +229,8 @@ def make_scenarios(tier, seed):
     if tier == "quick":
         plan = ([(m, "many") for m in REQUIRED_MODES] + [(m, "few") for m in REQUIRED_MODES] +
                 [("heading_context", "few"), ("quiet", "many"), ("heading", "none"), ("only_matching", "many"),
-                 ("count_zero", "few"), ("vimgrep_after", "many")])
+                 ("count_zero", "few"), ("vimgrep_after", "many"), ("count_ctx", "many"), ("files_ctx", "few"), ("json_ctx", "few"),
+                 ("countm_ctx", "many"), ("passthru", "few"), ("passthru_heading", "none")])
         nrun, nsort = 22, 3
     else:
         plan = []
@@ -240,7 +248,7 @@ def make_scenarios(tier, seed):
         rng.shuffle(threads)
         scns.append({
             "gid": i, "seed": rng.randrange(1 << 30), "tier": tier, "mode": mode, "pattern": pat,
-            "dense": (i % 3 == 0 and mode != "json") or (tier == "quick" and pat == "many" and mode in ("heading", "context")),
+            "dense": (i % 3 == 0 and mode not in ("json", "json_ctx")) or (tier == "quick" and pat == "many" and mode in ("heading", "context")),
             "pre": i % 2 == 0, "ignores": i % 4 == 1, "links": i % 3 == 2 and i % 5 != 4,
             "threads": threads,
             # CPU sets: None = unrestricted, else number of CPUs the run is confined to
@@ -336,7 +344,7 @@ class Interner:
     def tokens(self, data, mode):
         parts = data.split(b"\n")
         lines = [p + b"\n" for p in parts[:-1]] + ([parts[-1]] if parts[-1] else [])
-        if mode == "json":
+        if mode in ("json", "json_ctx"):
             # the trailing summary message holds totals, not a file's results; elapsed times are not reproducible
             if lines and b'"type":"summary"' in lines[-1]:
                 lines = lines[:-1]
